@@ -149,7 +149,13 @@ def check(ctx: Ctx) -> str:
     okr = len(reps) == 1 and [ast.unparse(a) for a in reps[0].args] == ["'%20'", "'+'"] and any(g == "for_qs" and pol for g, pol in astq.guard_texts(uq.node, reps[0])) and ast.unparse(reps[0].func.value) != "obj"  # type: ignore[attr-defined]
     ctx.check(okr, "url_quote:plus", "utils:url_quote", "spaces become + after quoting", f"the only rewrite allowed is %20 -> + on the quoted result under for_qs; found {[ast.unparse(r) for r in reps]}", uq.loc())
     du = repo.func("filters:do_urlencode")
-    ctx.check("url_quote(k, for_qs=True)" in ast.unparse(du.node) and "url_quote(v, for_qs=True)" in ast.unparse(du.node) and "'&'.join(" in ast.unparse(du.node), "urlencode:pairs", "filters:do_urlencode", "pairs quoted for a query string", "keys and values of a mapping must be quoted with for_qs=True and joined with '&'", du.loc())
+    pair_ok = False
+    for j in [c for c in astq.calls(du.node) if ast.unparse(c.func) == "'&'.join" and len(c.args) == 1 and isinstance(c.args[0], (ast.GeneratorExp, ast.ListComp))]:
+        g = j.args[0].generators[0]  # type: ignore[union-attr]
+        if isinstance(g.target, ast.Tuple) and len(g.target.elts) == 2:
+            kv, vv = (ast.unparse(e_) for e_ in g.target.elts)
+            pair_ok = ast.unparse(j.args[0].elt) == f"f'{{url_quote({kv}, for_qs=True)}}={{url_quote({vv}, for_qs=True)}}'"  # type: ignore[union-attr]
+    ctx.check(pair_ok, "urlencode:pairs", "filters:do_urlencode", "pairs quoted for a query string", "keys and values of a mapping must be quoted with for_qs=True and joined with '&'", du.loc())
 
     ctx.rule("R3", "truncate: the unchanged-return test is len(s) <= length + leeway (as a linear inequality), every cut of s ends at length - len(end), every truncating return appends end")
     tr = repo.func("filters:do_truncate")
